@@ -47,6 +47,7 @@ def _c17():
 
 
 def _c01():
+    from . import engine_t
     ST = ("-Z", "stubbing")
     hs = [
         {"name": "c01::c01a_sass_loud_comment_4", "tiers": Q, "flags": ST, "covers": ["end", "err", "closed"], "watchdog": 10,
@@ -67,12 +68,17 @@ def _c01():
          "bound": "BaseParser::expect_whitespace at any cursor of 3 arbitrary tokens, unwind 5"},
         {"name": "c01::c01b_spaces_6", "tiers": Q, "covers": ["end", "consumed"],
          "bound": "BaseParser::spaces at any cursor of 6 arbitrary tokens"},
+        {"name": "c18::c19a_relex_2byte_then_ascii", "tiers": Q, "covers": ["end", "text_longer_than_span", "text_fits"],
+         "bound": "error-span construction over re-lexed multi-byte text never trips Span::subspan's assertion (span length 0..8)"},
+        {"name": "c16::c16a_clamp_none_px_em", "tiers": Q, "flags": ST, "covers": ["end", "kept_calculation"],
+         "bound": "clamp(unitless, px, em): no unit conversion outside the table (panic in Number::convert)"},
     ]
     return {
+        "pre": [engine_t.dump_units],
         "flags": (),
         "timeout": {"quick": 900, "thorough": 2400},
         "harnesses": hs,
-        "functions": ["parse::sass::SassParser::skip_loud_comment", "parse::base::BaseParser::{whitespace, whitespace_without_comments, "
+        "functions": ["value::calculation::SassCalculation::clamp (unit guard before Number::convert)", "parse::sass::SassParser::skip_loud_comment", "parse::base::BaseParser::{whitespace, whitespace_without_comments, "
                       "scan_comment, skip_silent_comment, skip_loud_comment, expect_whitespace, spaces}", "lexer::Lexer::{next, peek, peek_n, span_at_index}"],
         "bounds": "token buffers of the stated length, every token an arbitrary Unicode scalar; unwinding assertions on",
         "stubs": ["std::hash::RandomState::new -> fixed keys (Options::default builds an empty HashMap)",
@@ -95,6 +101,8 @@ def _c08():
         {"name": "c08::c08a_roundtrip_transitive", "tiers": Q, "covers": ["end", "roundtrip", "transitive"],
          "bound": "all ordered triples of the 34 simple units; factors from the dumped table; 4 ulp"},
         {"name": "c08::c08a_css_anchors", "tiers": Q, "bound": "13 CSS ratios, 1 ulp"},
+        {"name": "c08::c08a_known_compat_classes", "tiers": Q, "covers": ["end", "compatible_pair", "incompatible_pair"],
+         "bound": "all triples of the 34 simple units over the dumped KNOWN_COMPATIBILITIES classes (calc() compatibility)"},
         {"name": "c08::c08b_add", "tiers": Q, "flags": ST, "covers": ["end", "rejected", "converted", "adopted_unit"],
          "bound": "evaluate::bin_op::add on two numbers: all 35x35 unit pairs, operands from {1.5,-2,0,1e300}x{0.25,3,-0,inf}"},
         {"name": "c08::c08b_sub", "tiers": Q, "flags": ST, "covers": ["end", "rejected", "converted", "adopted_unit"],
@@ -146,6 +154,25 @@ def _c13():
                    "CBMC within 10 min; see DESIGN.md), reading/parsing the resolved file, import caching, url()/media modifiers")
 
 
+def _c14():
+    NMS = ST + ("--no-memory-safety-checks",)
+    hs = [H("c14::c14a_nth_0", "nth on an empty list, index i+{0,.25,.5}, i in [-5,5]", covers=("end", "rejected"), flags=NMS),
+          H("c14::c14a_nth_1", "nth on a 1-element list", tiers=T, covers=("end", "rejected", "negative_index"), flags=NMS),
+          H("c14::c14a_nth_3", "nth on a 3-element list", covers=("end", "rejected", "negative_index"), flags=NMS),
+          H("c14::c14a_set_nth_1", "set-nth on a 1-element list", tiers=T, covers=("end", "rejected"), flags=NMS),
+          H("c14::c14a_set_nth_3", "set-nth on a 3-element list", covers=("end", "rejected", "negative_index"), flags=NMS),
+          H("c14::c14a_length_2", "length of a 2-element list and of a single value", flags=NMS)]
+    return _simple(hs, ["builtin::functions::list::{nth, set_nth, length}", "Value::{as_list, assert_number_with_name}",
+                        "SassNumber::assert_int_with_name", "value::number::{fuzzy_as_int, Number::is_zero, is_positive}"],
+                   "lists of 0-3 marker elements; index = i + d, i any integer in [-5, 5], d in {0, 0.25, 0.5}",
+                   "string functions (content-dependent output length), join/append/zip/index, map functions, wrongly typed arguments "
+                   "(error text goes through fmt), argument arity/name validation (ArgumentResult accessors are stubbed), indices within "
+                   "1e-11 of an integer but not equal to it, sass:list/map/string module aliases",
+                   stubs=[RS_STUB, FMT_STUB, EPS_STUB, "ArgumentResult::{get_err, max_args, default_arg} -> positional-only versions "
+                          "(named: BTreeMap / touched: BTreeSet bookkeeping is out of CBMC's reach)"],
+                   timeout={"quick": 1500, "thorough": 2400})
+
+
 def _c15():
     hs = [H("c15::c15a_from_rgba_clamps", "Color::from_rgba / from_rgba_fn on four arbitrary f64 (NaN, infinities included)",
             covers=("end", "nan_and_large")),
@@ -153,22 +180,41 @@ def _c15():
             covers=("end", "zero_amount")),
           H("c15::c15d_short_hex_iff_symmetrical", "all 2^24 8-bit colours: 3-digit hex chosen iff every channel has equal nibbles",
             covers=("end", "short"))]
-    return _simple(hs, ["color::Color::{from_rgba, from_rgba_fn, red, green, blue, alpha, with_alpha, fade_in, fade_out}",
-                        "value::number::Number::{clamp, round}", "serializer::Serializer::{is_symmetrical_hex, can_use_short_hex}"],
-                   "every f64 argument (full width, symbolic); all 8-bit channel triples",
-                   "RGB<->HSL/HWB round trips (about 25 double multiplications/divisions per colour do not finish), the named "
-                   "colour table (phf), lighten/darken/mix identities, compressed-mode spelling choice")
+    from . import engine_f
+    d = _simple(hs, ["color::Color::{from_rgba, from_rgba_fn, red, green, blue, alpha, with_alpha, fade_in, fade_out, hue_to_rgb}",
+                     "value::number::{Number::clamp, Number::round, fuzzy_round}", "serializer::Serializer::{is_symmetrical_hex, can_use_short_hex}"],
+                "every f64 argument (full width, symbolic); all 8-bit channel triples; hue_to_rgb on the lattice m1=a/L, m2=b/L, "
+                "hue=c/3L (L=32 quick, 256 thorough), every point",
+                "RGB<->HSL/HWB round trips (about 25 double multiplications/divisions per colour do not finish), the named "
+                "colour table (phf), lighten/darken/mix identities, compressed-mode spelling choice",
+                stubs=["engine F: C models of the std float methods, MIR->C translation validated natively each run"])
+    d["engines"] = [engine_f.make_engine("C15", [
+        {"name": "c15_hue_to_rgb", "inputs": ["a", "b", "c3"], "tiers": ("quick",), "timeout": {"quick": 600},
+         "bound": "hue_to_rgb (MIR->C) within [m1, m2] and channel in [0,255]: lattice L=32 (33x33x161 points)"},
+        {"name": "c15_hue_to_rgb", "inputs": ["a", "b", "c3"], "tiers": ("thorough",), "extra": ["-DLAT=256"], "timeout": {"thorough": 2400},
+         "bound": "hue_to_rgb lattice L=256"},
+    ])]
+    return d
 
 
 def _c16():
     hs = [H("c16::c16b_paren_rules_%s" % o, "outer operator %s, every inner operator, both operand sides, integer leaves in [-4,4], "
             "exact rational evaluation" % o, covers=("end", "lhs_unparenthesised")) for o in ("plus", "minus", "mul", "div")]
-    return _simple(hs, ["value::calculation::CalculationArg::parenthesize_calculation_rhs", "common::BinaryOp::precedence "
+    from . import engine_t
+    CL = {"none_px_em": (Q, ("end", "kept_calculation")), "px_in_pt": (Q, ("end", "reduced")), "px_px_px": (Q, ("end", "reduced")),
+          "none_none_none": (Q, ("end", "reduced")), "px_em_px": (Q, ("end",)), "none_px_px": (Q, ("end",)),
+          "px_none_px": (T, ("end",)), "px_px_none": (T, ("end",)), "deg_px_px": (T, ("end",)), "px_in_em": (Q, ("end",)),
+          "em_em_em": (T, ("end", "reduced")), "none_px_in": (T, ("end",))}
+    hs += [H("c16::c16a_clamp_" + k, "SassCalculation::clamp(min, value, max) with units %s, magnitudes from {0,1,2,96,-3}" % k.replace("_", ", "),
+             tiers=t, covers=c, flags=ST) for k, (t, c) in CL.items()]
+    return _simple(hs, ["value::calculation::SassCalculation::{clamp, simplify, verify_length, verify_compatible_numbers}", "sass_number::SassNumber::{is_comparable_to, has_compatible_units}", "value::calculation::CalculationArg::parenthesize_calculation_rhs", "common::BinaryOp::precedence "
                         "(left-operand rule of Serializer::write_calculation_arg)"],
-                   "operation trees of depth 2 over + - * /; leaves integers in [-4,4]",
+                   "operation trees of depth 2 over + - * /; leaves integers in [-4,4]; clamp over the listed unit triples",
                    "the serializer's emission of the text (reaches core::fmt::write, whose fn-pointer dispatch does not finish "
-                   "under CBMC), SassCalculation::{min,max,clamp,operate_internal} (HashSet/Lazy-backed unit compatibility), "
-                   "nested calc flattening, variables/interpolation")
+                   "under CBMC), SassCalculation::{min,max,operate_internal}, nested calc flattening, variables/interpolation",
+                   stubs=[RS_STUB, FMT_STUB, "Number::convert -> contract stub asserting the pair is in the dumped table",
+                          "SassNumber::has_possibly_compatible_units -> arbitrary bool (HashSet-backed)"],
+                   pre=[engine_t.dump_units])
 
 
 def _c18():
@@ -185,11 +231,15 @@ def _c19():
     hs = [H("c18::c19a_spans_3", "Lexer::{current_span, prev_span, span_from} on 3 arbitrary code points, any cursor, any start",
             covers=("end", "at_eof", "multibyte")),
           H("c18::c19a_spans_empty", "the same on an empty token buffer"),
+          H("c18::c19a_relex_2byte_then_ascii", "Lexer::new_from_string on the text `\u00e9a` attributed to a span of any length 0..8; any cursor/start",
+            covers=("end", "text_longer_than_span", "text_fits")),
+          H("c18::c19a_relex_ascii_then_3byte", "same for `a\u65e5`", covers=("end", "text_longer_than_span", "text_fits")),
+          H("c18::c19a_relex_two_wide", "same for a 2-byte and a 4-byte code point", tiers=T, covers=("end", "text_longer_than_span", "text_fits")),
           H("c18::c18a_lex_ascii_4", "token positions lie inside the token's source bytes and increase strictly",
             covers=("end", "crlf_collapsed"))]
     return _simple(hs, ["lexer::Lexer::{span_at_index, span_from, prev_span, current_span}", "codemap::Span::{subspan, merge}",
-                        "lexer::TokenLexer::next (positions)"],
-                   "token buffers of 0 and 3 arbitrary code points",
+                        "lexer::TokenLexer::next (positions)", "lexer::Lexer::new_from_string (is_expanded guard)"],
+                   "token buffers of 0 and 3 arbitrary code points; three concrete multi-byte texts against every span length 0..8",
                    "@warn/@debug delivery counts and `quiet` (HashSet<Span>-backed de-duplication), error rendering (Display through "
                    "core::fmt), spans of re-lexed interpolation (is_expanded), stdout/stderr routing")
 
@@ -207,6 +257,19 @@ def _c07():
           H("c07::c07a_fuzzy_as_int", "every double (totality), |x| <= 1000 for the value laws", covers=("end", "near_integer", "non_integer"), flags=ST),
           H("c07::c07a_number_predicates", "x in [-1,1], y any double: is_zero/is_positive/is_negative partition, min/max/clamp",
             covers=("end", "fuzzy_zero", "nan_clamped"), flags=ST)]
+    NMS = ST + ("--no-memory-safety-checks",)
+    MAG = "magnitudes {1, 96, 0, 1.000000000001, 1.5, 0.999999999999}"
+    hs += [H("c08::c07c_cmp_px_px", "Value::cmp vs ==: px vs px, " + MAG, covers=("end", "less", "fuzzy_equal_pair"), flags=NMS),
+           H("c08::c07c_cmp_none_none", "Value::cmp vs ==: unitless, " + MAG, covers=("end", "less", "fuzzy_equal_pair"), flags=NMS),
+           H("c08::c07c_cmp_in_px", "Value::cmp vs ==: in vs px (right operand converted)", covers=("end", "less"), flags=NMS),
+           H("c08::c07c_cmp_px_in", "Value::cmp vs ==: px vs in", tiers=T, covers=("end", "less"), flags=NMS),
+           H("c08::c07c_cmp_px_none", "Value::cmp: px vs unitless", tiers=T, covers=("end", "less"), flags=NMS),
+           H("c08::c07c_cmp_px_em", "Value::cmp: px vs em is an error", covers=("end", "rejected"), flags=NMS),
+           H("c07::c07c_print_expanded", "Number::to_string(expanded): every x in (-10, 10) with every correctly rounded 10-place digit string",
+             covers=("end", "rounds_up_to_one", "rounds_to_zero"), flags=NMS),
+           H("c07::c07c_print_compressed", "Number::to_string(compressed), same universe", covers=("end", "rounds_up_to_one", "rounds_to_zero"), flags=NMS),
+           H("c07::c07c_write_float_expanded", "Serializer::write_float(expanded), same universe", tiers=T, covers=("end", "rounds_up_to_one"), flags=NMS),
+           H("c07::c07c_write_float_compressed", "Serializer::write_float(compressed), same universe", covers=("end", "rounds_up_to_one", "rounds_to_zero"), flags=NMS)]
     from . import engine_f
     d = _simple(hs, ["value::number::{fuzzy_equals, fuzzy_less_than, fuzzy_less_than_or_equals, fuzzy_as_int, fuzzy_round, "
                      "epsilon, inverse_epsilon, modulo, real_mod}", "Number::{is_zero, is_positive, is_negative, min, max, clamp}"],
@@ -215,10 +278,12 @@ def _c07():
                 "any dividend with |n1| < 2048 |n2|",
                 "number printing (`{:.10}` float formatting does not finish), literal parsing, sass:math functions (libm), "
                 "fuzzy_round of negative numbers (no caller passes one), doubles outside the windows, transitivity of fuzzy equality",
-                stubs=[EPS_STUB, "engine F: C models of floor/ceil/round/trunc/fabs/fma (CBMC built-ins) and an exact long-division "
+                stubs=[EPS_STUB, RS_STUB, FMT_STUB, "Number::convert -> contract stub (dumped table)",
+                       "alloc::fmt::format -> digit-string contract for `{:.10}` (printing harnesses): one integer digit, '.', ten "
+                       "digits, assumed correctly rounded", "engine F: C models of floor/ceil/round/trunc/fabs/fma (CBMC built-ins) and an exact long-division "
                        "model of f64 `%` (CBMC's own fmod is wrong); the MIR->C translation is validated natively against the real "
                        "functions on ~24k inputs every run"],
-                pre=[engine_t.check_epsilon])
+                pre=[engine_t.dump_units, engine_t.check_epsilon])
     d["engines"] = [engine_f.make_engine("C07", [
         {"name": "c07_fuzzy_round", "inputs": ["x"], "bound": "fuzzy_round (MIR->C) on every double in [0, 2^40)", "timeout": {"quick": 600, "thorough": 1200}},
         {"name": "c07_modulo", "inputs": ["n1", "n2"], "extra": ["-DMODULO_DIVISORS"], "timeout": {"quick": 900, "thorough": 1800},
@@ -237,7 +302,7 @@ def _c09():
              "num_px_em": (Q, "px vs em (inconvertible), " + MAG), "num_none_px": (Q, "unitless vs px, " + MAG),
              "num_px_none": (T, "px vs unitless, " + MAG),
              "str_str": (Q, "two 1-byte strings, quoted or not"), "num_str": (Q, "number vs string"),
-             "null_num": (T, "null vs number"), "bool_bool": (Q, "two booleans"),
+             "null_num": (T, "null vs number"), "bool_bool": (Q, "true vs false"), "true_true": (T, "true vs true"),
              "empty_empty": (Q, "two empty lists, any separator/brackets"),
              "empty_list": (Q, "empty list vs one-element list"), "str_null": (T, "string vs null")}
     hs = [H("c09::c09a_" + k, b, tiers=t, covers=("end", "unequal"), flags=ST) for k, (t, b) in names.items()]
